@@ -15,71 +15,63 @@ From Verif Require Gen_Placement Placement Placement_proofs.
 Open Scope N_scope.
 
 (* An outbound channel whose target names channel [c] of the task with path [t_path b] is given
-   the host of that task, the port / IPC path allocated to [c] and [c]'s transport. *)
+   the host of that task, the port / IPC path allocated to [c] and [c]'s transport.  (A channel
+   with a target of its own takes no part in matching: in an accepted configuration [c] has none.) *)
 Theorem C13_connect_matches_bind : forall tasks ps jt t pr b i c o,
   wf_env tasks -> configure tasks = Some ps ->
   In b tasks -> names_ok b -> nth_error (t_in b) i = Some c ->
   nth_error tasks jt = Some t -> nth_error ps jt = Some pr -> t_chans t = true -> NoDup (names_of t) ->
   In o (t_out t) -> o_target o = t_path b ++ s_colon ++ i_name c -> is_explicit (o_target o) = false ->
+  i_target c = [] /\
   given (o_name o) pr = Some (conn_addr (t_host b) c (t_alloc b i), m_connect, i_tr c).
 Proof. exact connect_matches_bind_path. Qed.
 Print Assumptions C13_connect_matches_bind.
 
-(* The same through a global alias; [c] is the channel of [b] that holds the alias (the last
-   one declaring it).  If several tasks claim the alias and the configuration is accepted, the
-   statement holds for each of them: they all stand for one endpoint. *)
-Theorem C13_connect_matches_bind_alias : forall tasks ps jt t pr b pre c post o,
+(* The same through a global alias, for the channel [c] of [b] that declares the alias.  If several
+   tasks claim the alias and the configuration is accepted, the statement holds for each of them:
+   they all stand for one endpoint. *)
+Theorem C13_connect_matches_bind_alias : forall tasks ps jt t pr b i c o,
   (forall x, In x tasks -> path_ok (t_path x)) -> (forall x, In x tasks -> host_ok (t_host x)) ->
   configure tasks = Some ps ->
   In b tasks -> (forall c', In c' (t_in b) -> is_alias_key (i_name c') = false) ->
-  t_in b = pre ++ c :: post -> i_global c <> [] -> (forall c', In c' post -> i_global c' <> i_global c) ->
+  nth_error (t_in b) i = Some c -> i_global c <> [] -> i_target c = [] ->
   nth_error tasks jt = Some t -> nth_error ps jt = Some pr -> t_chans t = true -> NoDup (names_of t) ->
   In o (t_out t) -> o_target o = alias_key (i_global c) ->
-  given (o_name o) pr = Some (conn_addr (t_host b) c (t_alloc b (length pre)), m_connect, i_tr c).
+  given (o_name o) pr = Some (conn_addr (t_host b) c (t_alloc b i), m_connect, i_tr c).
 Proof. exact connect_matches_bind_alias. Qed.
 Print Assumptions C13_connect_matches_bind_alias.
 
-(* The binding side.  Full statement: whatever the inbound declaration looks like, the peer is
-   given the endpoint the binder is told to bind. *)
-Definition C13_bind_told_same_statement : Prop :=
-  forall tasks ps jb b prb i c jt t prt o,
-    wf_env tasks -> configure tasks = Some ps ->
-    nth_error tasks jb = Some b -> nth_error ps jb = Some prb -> t_chans b = true -> names_ok b ->
-    nth_error (t_in b) i = Some c ->
-    nth_error tasks jt = Some t -> nth_error ps jt = Some prt -> t_chans t = true -> names_ok t ->
-    In o (t_out t) -> o_target o = t_path b ++ s_colon ++ i_name c -> is_explicit (o_target o) = false ->
-    exists a, given (o_name o) prt = Some (conn_addr (t_host b) c a, m_connect, i_tr c) /\
-              given (i_name c) prb = Some (bound_addr c a, m_bind, i_tr c).
-
-(* FALSE for the code as it is: an inbound channel with an explicit target is told that target
-   while a port is still allocated and advertised to the peers (witness: corpus case
-   explicit-inbound-target, finding C13-a). *)
-Theorem C13_bind_told_same_refuted : ~ C13_bind_told_same_statement.
-Proof. exact agreement_refuted. Qed.
-Print Assumptions C13_bind_told_same_refuted.
-
-(* ... and a declaration whose target the device interface refuses is told nothing at all but
-   is advertised all the same (corpus case invalid-inbound-target, finding C13-b). *)
-Theorem C13_invalid_inbound_still_advertised :
-  exists ps prb prt, configure_wf wit2_ws = Some ps /\ nth_error ps 0 = Some prb /\ nth_error ps 1 = Some prt /\
-    given (i_name wit2_c) prb = None /\
-    given (o_name wit1_o) prt = Some ([116;99;112;58;47;47;104;49;58;57;48;48;48], m_connect, s_default).
-Proof. exact invalid_inbound_advertised. Qed.
-Print Assumptions C13_invalid_inbound_still_advertised.
-
-(* TRUE for every inbound channel without a target of its own (automatic allocation): both
-   sides are told the same allocation. *)
-Theorem C13_bind_told_same_partial : forall tasks ps jb b prb i c jt t prt o,
+(* The binding side, full statement (refuted before the repairs C13-a / C13-b): whatever the
+   inbound declaration looks like, in an accepted configuration the peer is given the endpoint
+   the binder is told to bind - the same allocation on both sides. *)
+Theorem C13_bind_told_same : forall tasks ps jb b prb i c jt t prt o,
   wf_env tasks -> configure tasks = Some ps ->
   nth_error tasks jb = Some b -> nth_error ps jb = Some prb -> t_chans b = true -> names_ok b ->
   nth_error (t_in b) i = Some c ->
   nth_error tasks jt = Some t -> nth_error ps jt = Some prt -> t_chans t = true -> names_ok t ->
   In o (t_out t) -> o_target o = t_path b ++ s_colon ++ i_name c -> is_explicit (o_target o) = false ->
-  i_target c = [] ->
   given (o_name o) prt = Some (conn_addr (t_host b) c (t_alloc b i), m_connect, i_tr c) /\
   given (i_name c) prb = Some (bound_addr c (t_alloc b i), m_bind, i_tr c).
-Proof. exact agreement_partial. Qed.
-Print Assumptions C13_bind_told_same_partial.
+Proof. exact agreement. Qed.
+Print Assumptions C13_bind_told_same.
+
+(* A channel that is told its own static target is not advertised: a peer that names it fails
+   the configuration instead of being sent to a port nobody binds (former finding C13-a). *)
+Theorem C13_static_inbound_not_matched : forall tasks jt t b c o,
+  wf_env tasks -> In b tasks -> names_ok b -> In c (t_in b) -> i_target c <> [] ->
+  nth_error tasks jt = Some t -> t_chans t = true -> NoDup (names_of t) ->
+  In o (t_out t) -> o_target o = t_path b ++ s_colon ++ i_name c -> is_explicit (o_target o) = false ->
+  configure tasks = None.
+Proof. exact static_inbound_not_matched. Qed.
+Print Assumptions C13_static_inbound_not_matched.
+
+(* An inbound channel whose target is neither empty nor tcp:// / ipc:// fails the configuration
+   (former finding C13-b: it used to be skipped silently and still advertised). *)
+Theorem C13_invalid_inbound_fails : forall tasks t c,
+  In t tasks -> t_chans t = true -> In c (t_in t) ->
+  i_target c <> [] -> is_explicit (i_target c) = false -> configure tasks = None.
+Proof. exact invalid_inbound_fails. Qed.
+Print Assumptions C13_invalid_inbound_fails.
 
 (* the binder alone: told to bind exactly what was allocated to the channel *)
 Theorem C13_bind_told_allocation : forall tasks ps jb b pr i c,
@@ -112,8 +104,8 @@ Theorem C13_explicit_unchanged_inbound : forall tasks ps jt t pr c,
 Proof. exact explicit_inbound. Qed.
 Print Assumptions C13_explicit_unchanged_inbound.
 
-(* A target that names no channel of any task (neither "path:name" nor "::alias") fails the
-   configuration. *)
+(* A target that names no channel of any task (neither "path:name" nor "::alias" of a channel
+   that takes part in matching) fails the configuration. *)
 Theorem C13_unmatched_fails : forall tasks t o,
   In t tasks -> t_chans t = true -> In o (t_out t) -> is_explicit (o_target o) = false ->
   (forall b c, In b tasks -> In c (t_in b) -> ~ names_target b c (o_target o)) ->
@@ -121,43 +113,39 @@ Theorem C13_unmatched_fails : forall tasks t o,
 Proof. exact unmatched_fails. Qed.
 Print Assumptions C13_unmatched_fails.
 
-(* Two different endpoints claiming one global alias.  Full statement: any two distinct claims
-   of one alias whose endpoints differ are rejected. *)
-Definition C13_alias_conflict_rejected_statement : Prop :=
-  forall tasks j1 j2 b1 b2 i1 i2 c1 c2,
-    (forall x, In x tasks -> path_ok (t_path x)) -> (forall x, In x tasks -> host_ok (t_host x)) ->
-    nth_error tasks j1 = Some b1 -> nth_error tasks j2 = Some b2 ->
-    nth_error (t_in b1) i1 = Some c1 -> nth_error (t_in b2) i2 = Some c2 ->
-    (j1, i1) <> (j2, i2) -> i_global c1 <> [] -> i_global c2 = i_global c1 ->
-    to_target (t_host b1) (mk_ep c1 (t_alloc b1 i1)) <> to_target (t_host b2) (mk_ep c2 (t_alloc b2 i2)) ->
-    configure tasks = None.
+(* Two different endpoints claiming one global alias, full statement (refuted before the repair
+   C13-c): any two distinct claims of one alias, by channels that take part in matching, whose
+   endpoints differ are rejected - in one task or across tasks. *)
+Theorem C13_alias_conflict_rejected : forall tasks j1 j2 b1 b2 i1 i2 c1 c2,
+  (forall x, In x tasks -> path_ok (t_path x)) -> (forall x, In x tasks -> host_ok (t_host x)) ->
+  (forall x c, In x tasks -> In c (t_in x) -> is_alias_key (i_name c) = false) ->
+  nth_error tasks j1 = Some b1 -> nth_error tasks j2 = Some b2 ->
+  nth_error (t_in b1) i1 = Some c1 -> nth_error (t_in b2) i2 = Some c2 ->
+  (j1, i1) <> (j2, i2) -> i_global c1 <> [] -> i_global c2 = i_global c1 ->
+  i_target c1 = [] -> i_target c2 = [] ->
+  to_target (t_host b1) (mk_ep c1 (t_alloc b1 i1)) <> to_target (t_host b2) (mk_ep c2 (t_alloc b2 i2)) ->
+  configure tasks = None.
+Proof. exact alias_conflict_rejected. Qed.
+Print Assumptions C13_alias_conflict_rejected.
 
-(* FALSE: two channels of ONE task may claim the same alias; the later one silently wins
-   (corpus case alias-twice-in-one-task, finding C13-c). *)
-Theorem C13_alias_conflict_rejected_refuted : ~ C13_alias_conflict_rejected_statement.
-Proof. exact alias_conflict_refuted. Qed.
-Print Assumptions C13_alias_conflict_rejected_refuted.
+(* within one task the rejection is unconditional: any two declarations with one alias *)
+Theorem C13_alias_twice_in_one_task_rejected : forall tasks b i1 i2 c1 c2,
+  In b tasks -> nth_error (t_in b) i1 = Some c1 -> nth_error (t_in b) i2 = Some c2 -> i1 <> i2 ->
+  i_global c1 <> [] -> i_global c2 = i_global c1 -> configure tasks = None.
+Proof. exact alias_same_task_rejected. Qed.
+Print Assumptions C13_alias_twice_in_one_task_rejected.
 
-(* TRUE across tasks: an alias present in the local maps of two different tasks is rejected
-   unless both entries are one and the same IPC endpoint (path and transport) ... *)
-Theorem C13_alias_conflict_rejected_partial : forall tasks j1 j2 b1 b2 k e1 e2,
+(* across tasks: an alias present in the local maps of two different tasks is rejected unless
+   both entries are one and the same IPC endpoint (path and transport) - in particular always
+   for TCP *)
+Theorem C13_alias_in_two_tasks_rejected : forall tasks j1 j2 b1 b2 k e1 e2,
   (forall x, In x tasks -> path_ok (t_path x)) -> (forall x, In x tasks -> host_ok (t_host x)) ->
   nth_error tasks j1 = Some b1 -> nth_error tasks j2 = Some b2 -> j1 <> j2 ->
   is_alias_key k = true -> In (k, e1) (t_local b1) -> In (k, e2) (t_local b2) ->
   ~ (exists p tr, e1 = Ipc p tr /\ e2 = Ipc p tr) ->
   configure tasks = None.
 Proof. exact alias_two_tasks_rejected. Qed.
-Print Assumptions C13_alias_conflict_rejected_partial.
-
-(* ... in particular always when the claiming channels of one of the tasks are TCP-addressed. *)
-Theorem C13_alias_conflict_tcp_rejected : forall tasks j1 j2 b1 b2 c1 c2,
-  (forall x, In x tasks -> path_ok (t_path x)) -> (forall x, In x tasks -> host_ok (t_host x)) ->
-  nth_error tasks j1 = Some b1 -> nth_error tasks j2 = Some b2 -> j1 <> j2 ->
-  In c1 (t_in b1) -> In c2 (t_in b2) -> i_global c1 <> [] -> i_global c2 = i_global c1 ->
-  (forall c, In c (t_in b1) -> sets_key c (alias_key (i_global c1)) -> i_ipc c = false) ->
-  configure tasks = None.
-Proof. exact alias_two_tasks_tcp_rejected. Qed.
-Print Assumptions C13_alias_conflict_tcp_rejected.
+Print Assumptions C13_alias_in_two_tasks_rejected.
 
 (* Which declaration applies at any tree level: the nearest role on the path that declares the
    name, else the task template's (whose connect targets are dropped when the class is read). *)
@@ -179,12 +167,16 @@ Theorem C13_nearest_declaration_outbound : forall w n,
 Proof. exact w_out_decl. Qed.
 Print Assumptions C13_nearest_declaration_outbound.
 
-(* The configuration is refused ONLY for one of the two reasons the property names: some
-   outbound target names nothing, or an alias is in the local maps of two different tasks. *)
+(* The configuration is refused ONLY for a reason the property names: some outbound target names
+   nothing, some inbound channel has an invalid target, an alias is declared twice in one task,
+   or an alias is in the local maps of two different tasks. *)
 Theorem C13_refused_only_for_cause : forall tasks,
   (forall t, In t tasks -> path_ok (t_path t)) -> configure tasks = None ->
   (exists t o, In t tasks /\ t_chans t = true /\ In o (t_out t) /\ is_explicit (o_target o) = false /\
                forall b c, In b tasks -> In c (t_in b) -> ~ names_target b c (o_target o)) \/
+  (exists t c, In t tasks /\ t_chans t = true /\ In c (t_in t) /\
+               i_target c <> [] /\ is_explicit (i_target c) = false) \/
+  (exists t, In t tasks /\ alias_dup (t_in t) = true) \/
   (exists j1 j2 b1 b2 k e1 e2, (j1 < j2)%nat /\ nth_error tasks j1 = Some b1 /\ nth_error tasks j2 = Some b2 /\
                is_alias_key k = true /\ In (k, e1) (t_local b1) /\ In (k, e2) (t_local b2)).
 Proof. exact fails_only_for_cause. Qed.
@@ -208,7 +200,8 @@ Print Assumptions C13_port_from_offer.
 Theorem C13_ports_distinct : forall t pr pr' dyn i j c d,
   Placement_proofs.pvalid pr ->
   Placement.alloc_dyn (place_chans (t_in t)) pr = Placement.AOk pr' dyn -> alloc_agrees t dyn ->
-  nth_error (t_in t) i = Some c -> i_ipc c = false -> nth_error (t_in t) j = Some d -> i_ipc d = false ->
+  nth_error (t_in t) i = Some c -> i_ipc c = false -> i_target c = [] ->
+  nth_error (t_in t) j = Some d -> i_ipc d = false -> i_target d = [] ->
   i <> j -> fst (t_alloc t i) <> fst (t_alloc t j).
 Proof. exact ports_distinct. Qed.
 Print Assumptions C13_ports_distinct.
@@ -218,6 +211,11 @@ Example C13_port_from_offer_nonvacuous :
               Placement.AOk pr' [(0, 9000); (2, 9001)] /\
               Placement_proofs.pvalid (Some [(9000, 9002)]) /\ alloc_agrees pf_task [(0, 9000); (2, 9001)].
 Proof. exact pf_nonvacuous. Qed.
+
+(* the witnesses of the three former findings are refused by the repaired model *)
+Example C13_former_witnesses_refused :
+  configure wit1_tasks = None /\ configure_wf wit2_ws = None /\ configure_wf wit3_ws = None.
+Proof. exact (conj wit1_refused (conj wit2_refused wit3_refused)). Qed.
 
 (* non-vacuity: a concrete two-task workflow on two hosts meets the hypotheses of the theorems
    above, is accepted, and both sides are told port 9000 of host h1 *)
